@@ -124,12 +124,6 @@ theorem ball_nonsolid_exit (hs : LawfulSqrt sq) (c : V3 K) (r : K) (ray : Ray3 K
   exact absurd ((sphereAt_iff sq c r _).1 hsp) (ne_of_lt (h6 h0 s a b))
 
 
-/-- casting along `l·d` re-parametrises the ray: `pt_{l·d}(s) = pt_d(l·s)` -/
-theorem rayPt_scale (ray : Ray3 K) (l s : K) :
-    letI := fieldNum K sq
-    rayPt sq ⟨ray.o, ray.d.smul l⟩ s = rayPt sq ray (l * s) := by
-  simp only [rayPt, Ray3.pointAt, V3.add, V3.smul, mul_assoc]
-
 /-- **`toi_units`, generic form.** If a caster returns the first hit of a set `S` both for `(o, d, max)` and for
 `(o, l·d, max/l)`, `l > 0`, then the second result is the first divided by `l` (and `None` ↔ `None`). -/
 theorem toi_units_of_firstHit (S : V3 K → Prop) (ray : Ray3 K) (l max : K) (hl : 0 < l) (r r' : Option K) :
@@ -151,31 +145,6 @@ theorem rayPt_invTransform (m : Iso3 K) (ray : Ray3 K) (s : K) :
     V3.cross, V3.neg, fieldNum_two]
   congr 1 <;> ring
 
-
-/-- filtering an unbounded first hit by `t ≤ max` gives the first hit on `[0,max]` -/
-theorem firstHitU_filter {α : Type} (S : α → Prop) (pt : K → α) (max : K) (r : Option K) (h : FirstHitU S pt r) :
-    FirstHit S pt max (r.filter fun t => decide (t ≤ max)) := by
-  cases r with
-  | none => exact fun s h1 _ => h s h1
-  | some t =>
-    obtain ⟨h1, h2, h3⟩ := h
-    by_cases hm : t ≤ max
-    · have hf : (some t).filter (fun t => decide (t ≤ max)) = some t := by simp [Option.filter, hm]
-      rw [hf]
-      exact ⟨h1, hm, h2, h3⟩
-    · have hf : (some t).filter (fun t => decide (t ≤ max)) = none := by simp [Option.filter, hm]
-      rw [hf]
-      intro s hs hsm
-      exact h3 s hs (lt_of_le_of_lt hsm (not_le.1 hm))
-
-theorem lawfulSqrt_mul_self (hs : LawfulSqrt sq) (r : K) (hr : 0 ≤ r) : sq (r * r) = r :=
-  (mul_self_inj (hs.nonneg _ (mul_self_nonneg r)) hr).1 (hs.sq_mul _ (mul_self_nonneg r))
-
-/-- `BallAt` at the origin is `Ball.Mem3` -/
-theorem ballAt_zero (r : K) (p : V3 K) :
-    letI := fieldNum K sq
-    BallAt sq V3.zero r p ↔ (Ball.mk r).Mem3 p := by
-  unfold BallAt; rw [sub_zero_v3]
 
 /-- **Ball::cast_local_ray, solid.** For every non-zero (not necessarily unit) direction and every `max_toi`: the
 result is the first hit of the solid ball on `[0, max_toi]` — `Some t` ⇒ `0 ≤ t ≤ max_toi`, `o + t·d ∈ ball`, no earlier
@@ -1330,5 +1299,46 @@ example : letI := fieldNum ℚ id
       - (⟨0, 3⟩ : V2 ℚ).dot ((⟨2, 0⟩ : V2 ℚ).sub ⟨-2, 0⟩) * (⟨0, 3⟩ : V2 ℚ).dot ((⟨2, 0⟩ : V2 ℚ).sub ⟨-2, 0⟩) ∧
     perp2 (⟨5, 0⟩ : V2 ℚ) ((⟨2, 0⟩ : V2 ℚ).sub ⟨-2, 0⟩) = 0 := by
   simp only [epsK, V2.normSq, V2.dot, V2.sub, perp2]; norm_num
+
+/-! ## posed forms of the other shapes, `toi_units` for the 2-D segment -/
+
+/-- **Cuboid, posed form (`cast_ray`), solid**: the time returned for the world ray is the first hit of the posed cuboid
+`{p | m⁻¹•p ∈ cuboid}` (any isometry `m`; `toi` in units of the world direction, which may be non-unit). -/
+theorem cuboid_posed_solid_firstHit (big : K) (s : Cuboid3 K) (m : Iso3 K) (ray : Ray3 K) (max : K)
+    (hhe : 0 ≤ s.he.x ∧ 0 ≤ s.he.y ∧ 0 ≤ s.he.z) (hmax0 : 0 ≤ max) (hmaxb : max ≤ big) :
+    letI := fieldNum K sq
+    FirstHit (fun p => s.Mem (m.invAct p)) (rayPt sq ray) max (s.castRay big m ray max true) :=
+  (firstHit_posed sq _ m ray max _).1 (cuboid_cast_solid_firstHit sq big s (@Ray3.invTransform K (fieldNum K sq) ray m) max hhe hmax0 hmaxb)
+
+/-- **HalfSpace, posed form (`cast_ray_and_get_normal`), solid.** -/
+theorem halfspace_posed_solid_firstHit (s : HalfSpace3 K) (m : Iso3 K) (ray : Ray3 K) (max : K) (hmax : 0 ≤ max) :
+    letI := fieldNum K sq
+    FirstHit (fun p => s.Mem (m.invAct p)) (rayPt sq ray) max ((s.castRayAndGetNormal m ray max true).map (·.toi)) := by
+  have h := halfspace_cast_solid_firstHit sq s (@Ray3.invTransform K (fieldNum K sq) ray m) max hmax
+  have e : (@HalfSpace3.castRayAndGetNormal K (fieldNum K sq) s m ray max true).map (·.toi)
+      = (@HalfSpace3.castLocalRayAndGetNormal K (fieldNum K sq) s (@Ray3.invTransform K (fieldNum K sq) ray m) max true).map (·.toi) := by
+    simp only [HalfSpace3.castRayAndGetNormal, Option.map_map]; rfl
+  rw [e]
+  exact (firstHit_posed sq _ m ray max _).1 h
+
+/-- **`toi_units`, 2-D segment (crossing branch)**: if both `(o,d)` and `(o, l·d)` are in the regime where the code does
+not declare the lines parallel, the second time is the first divided by `l`.  (The regime itself is *not* scale invariant
+— the code's threshold is absolute — which is the KNOWN_FINDINGS entry for the 2-D segment.) -/
+theorem segment2_toi_units (s : Segment2 K) (ray : Ray2 K) (l max : K) (solid : Bool) (hl : 0 < l) :
+    letI := fieldNum K sq
+    letI := fieldUlps K
+    epsK K < ray.d.normSq → epsK K < (ray.d.smul l).normSq → epsK K < (s.b.sub s.a).normSq →
+    epsK K < ray.d.normSq * (s.b.sub s.a).normSq - ray.d.dot (s.b.sub s.a) * ray.d.dot (s.b.sub s.a) →
+    epsK K < (ray.d.smul l).normSq * (s.b.sub s.a).normSq - (ray.d.smul l).dot (s.b.sub s.a) * (ray.d.smul l).dot (s.b.sub s.a) →
+    (s.castLocalRayAndGetNormal ⟨ray.o, ray.d.smul l⟩ (max / l) solid).map (·.toi)
+      = ((s.castLocalRayAndGetNormal ray max solid).map (·.toi)).map (· / l) := by
+  intro h1 h2 h3 h4 h5
+  have a := segment2_cast_nonparallel_firstHit sq s ray max solid h1 h3 h4
+  have b := segment2_cast_nonparallel_firstHit sq s ⟨ray.o, @V2.smul K (fieldNum K sq) ray.d l⟩ (max / l) solid h2 h3 h5
+  have e : rayPt2 sq ⟨ray.o, @V2.smul K (fieldNum K sq) ray.d l⟩ = fun u => rayPt2 sq ray (l * u) := by
+    funext u; exact rayPt2_scale sq ray l u
+  rw [e] at b
+  exact firstHit_unique _ _ _ _ _ b (firstHit_scale _ (rayPt2 sq ray) max l hl _ a)
+
 
 end C04
